@@ -9,29 +9,29 @@ HOOKS = {
 ENGINES = [
     {'name': 'verus', 'path': '/verif/tools/gen_verus.py', 'serves_properties': ['C01', 'C02', 'C03', 'C04', 'C05', 'C07', 'C08', 'C10', 'C13', 'C14', 'C18'],
      'kind_free_text': 'Verus 0.2026.09.13 on functions extracted mechanically from /repo (source slices and rustc -Zunpretty=expanded output) with requires/ensures from /verif/contracts'},
-    {'name': 'kani', 'path': '/verif/tools/gen_kani.py', 'serves_properties': ['C05', 'C07', 'C09', 'C10', 'C14', 'C16', 'C18'],
+    {'name': 'kani', 'path': '/verif/tools/gen_kani.py', 'serves_properties': ['C01', 'C02', 'C03', 'C04', 'C05', 'C07', 'C08', 'C09', 'C10', 'C13', 'C14', 'C16', 'C18'],
      'kind_free_text': 'Kani 0.68 / CBMC 6.11 contract harnesses (assume pre; call; assert post) on the compiled crate, loop-free or constant-bound loops with unwinding assertions'},
 ]
 NOTES = 'Contract-based deductive verification. ./check <id> re-extracts, re-generates and re-verifies from /repo\'s working tree; exit 2 = undecided (lost anchor / tool limit), never an alarm. See DESIGN.md.'
 
 _V = 'Verus (Z3) function contracts on code extracted from the working tree'
 CHECKS = {
-    'C01': {'engine': 'verus', 'design_ref': '5 C01', 'technique': 'deductive verification of function contracts (Verus) on extracted code; magnitude lemmas over explicit rounding models (binary64 relative, decimal absolute)',
-            'level_text': 'Unbounded proof: ratio/equiv_amount/convert verified at trait level against exact functional contracts for every implementing type, unit and amount; the magnitude statement is a lemma over an explicit rounding model.',
+    'C01': {'engine': 'verus+kani', 'design_ref': '5 C01', 'technique': 'deductive verification of function contracts (Verus) on extracted code; magnitude lemmas over explicit rounding models (binary64 relative, decimal absolute)',
+            'level_text': 'Unbounded proof: ratio/equiv_amount/convert verified at trait level against exact functional contracts for every implementing type, unit and amount; the magnitude statement is a lemma over an explicit rounding model. A second line on the compiled crate: Kani harnesses with concrete amounts check the same normal forms bit for bit for the listed unit pairs (bounded stand-in, labelled bounded in the evidence; it decides when the extraction cannot take a changed function).',
             'level_note': 'Trusted: extraction rewrites R1-R7, M0/M1 amount models (standard model of f64 / fpdec operations), derived PartialEq structural, Verus+Z3.'},
-    'C02': {'engine': 'verus', 'design_ref': '5 C02', 'technique': 'deductive verification of function contracts (Verus); symmetry lemmas over uninterpreted amount operations whose axioms are proved for f64 by Kani; physical-order lemmas over rounding models',
-            'level_text': 'Unbounded proof of the comparison contracts and of operand-order independence over an amount model that assumes no algebraic law rounding breaks.',
+    'C02': {'engine': 'verus+kani', 'design_ref': '5 C02', 'technique': 'deductive verification of function contracts (Verus); symmetry lemmas over uninterpreted amount operations whose axioms are proved for f64 by Kani; physical-order lemmas over rounding models',
+            'level_text': 'Unbounded proof of the comparison contracts and of operand-order independence over an amount model that assumes no algebraic law rounding breaks. A second line on the compiled crate: Kani harnesses with concrete amounts check the same normal forms bit for bit for the listed unit pairs (bounded stand-in, labelled bounded in the evidence; it decides when the extraction cannot take a changed function).',
             'level_note': 'Trusted: as C01; <,<=,>,>=,!= are core default methods over partial_cmp/eq (A-std) - an overriding method in a generated impl is verified against vstd\'s specification of it.'},
-    'C03': {'engine': 'verus', 'design_ref': '5 C03', 'technique': 'deductive verification of function contracts (Verus); magnitude lemmas over rounding models',
-            'level_text': 'Unbounded proof of add/sub/div contracts at trait level and per generated operator.',
+    'C03': {'engine': 'verus+kani', 'design_ref': '5 C03', 'technique': 'deductive verification of function contracts (Verus); magnitude lemmas over rounding models',
+            'level_text': 'Unbounded proof of add/sub/div contracts at trait level and per generated operator. A second line on the compiled crate: Kani harnesses with concrete amounts check the same normal forms bit for bit for the listed unit pairs (bounded stand-in, labelled bounded in the evidence; it decides when the extraction cannot take a changed function).',
             'level_note': 'Trusted: as C01.'},
     'C10': {'engine': 'verus+kani', 'design_ref': '5 C10', 'technique': 'deductive verification of function contracts (Verus) incl. unreachability of panic under the same-unit precondition; Kani should_panic harnesses',
             'level_text': 'Unbounded proof of Quantity::{eq,partial_cmp,add,sub,div} at trait level; per-type delegation verified on the expansion.',
             'level_note': 'Trusted: as C01.'},
 }
 CHECKS.update({
-    'C04': {'engine': 'verus', 'design_ref': '5 C04', 'technique': 'deductive verification of every generated derived operator against a functional spec (Verus, vstd MulSpecImpl/DivSpecImpl)',
-            'level_text': 'Unbounded proof per generated operator impl (value and reference forms) that it equals the derived_mul/div normal form; _fit amount computation verified at trait level.',
+    'C04': {'engine': 'verus+kani', 'design_ref': '5 C04', 'technique': 'deductive verification of every generated derived operator against a functional spec (Verus, vstd MulSpecImpl/DivSpecImpl)',
+            'level_text': 'Unbounded proof per generated operator impl (value and reference forms) that it equals the derived_mul/div normal form; _fit amount computation verified at trait level. A second line on the compiled crate: Kani harnesses with concrete amounts check the same normal forms bit for bit for the listed unit pairs (bounded stand-in, labelled bounded in the evidence; it decides when the extraction cannot take a changed function).',
             'level_note': 'Trusted: as C01; unit selection functions (unit_from_scale, _fit pipeline) abstracted here and proved per type by Kani (K-ufs, K-fit).'},
     'C05': {'engine': 'verus+kani', 'design_ref': '5 C05', 'technique': 'Verus lemmas over the derived normal form + Kani contract harnesses for unit_from_scale/_fit selection on the compiled crate',
             'level_text': 'Unbounded proof of the natural-unit / fitted-unit / reference-unit statements over the operator normal forms; selection contracts proved per type over all f64 bit patterns.',
@@ -39,11 +39,11 @@ CHECKS.update({
     'C07': {'engine': 'verus+kani', 'design_ref': '5 C07', 'technique': 'Verus obligations: every scale literal of the expanded scale() tables equals the chained published definition (independent table), exactly or within amount precision; Kani: name/symbol/si_prefix tables',
             'level_text': 'Every unit of every catalogue type (main crate f64 and decimal, astronomical crate) is an obligation of its own; exhaustive over the finite tables, discharged by the verifier over exact rationals.',
             'level_note': 'Trusted: spec/units.toml transcribes the published definitions; literal tokens parsed to exact rationals by the generator; Amnt!/Dec! convert a literal to the nearest amount value.'},
-    'C08': {'engine': 'verus', 'design_ref': '5 C08', 'technique': 'deductive verification of generated constructors, accessors and scalar operators (Verus)',
-            'level_text': 'Unbounded proof per generated impl for arbitrary amounts of the abstract amount type (NaN, zeros, infinities included).',
+    'C08': {'engine': 'verus+kani', 'design_ref': '5 C08', 'technique': 'deductive verification of generated constructors, accessors and scalar operators (Verus)',
+            'level_text': 'Unbounded proof per generated impl for arbitrary amounts of the abstract amount type (NaN, zeros, infinities included). A second line on the compiled crate: Kani harnesses with concrete amounts check the same normal forms bit for bit for the listed unit pairs (bounded stand-in, labelled bounded in the evidence; it decides when the extraction cannot take a changed function).',
             'level_note': 'Trusted: as C01.'},
-    'C13': {'engine': 'verus', 'design_ref': '5 C13', 'technique': 'deductive verification of Rate and the generated Rate operators (Verus)',
-            'level_text': 'Unbounded proof: generic Rate functions, Mul<PQ> for Rate and every generated Mul<Rate>/Div<Rate> impl against functional specs; reciprocal lemmas.',
+    'C13': {'engine': 'verus+kani', 'design_ref': '5 C13', 'technique': 'deductive verification of Rate and the generated Rate operators (Verus)',
+            'level_text': 'Unbounded proof: generic Rate functions, Mul<PQ> for Rate and every generated Mul<Rate>/Div<Rate> impl against functional specs; reciprocal lemmas. A second line on the compiled crate: Kani harnesses with concrete amounts check the same normal forms bit for bit for the listed unit pairs (bounded stand-in, labelled bounded in the evidence; it decides when the extraction cannot take a changed function).',
             'level_note': 'Trusted: as C01; as_qty transposed into Quantity (R1) and cross-checked by Kani.'},
 })
 CHECKS.update({
@@ -53,12 +53,12 @@ CHECKS.update({
     'C14': {'engine': 'kani', 'design_ref': '5 C14', 'technique': 'Kani contract harnesses on ConversionTable::convert with symbolic tables (N <= 4 rows) and on TEMPERATURE_CONVERTER; Verus lemmas over the extracted table constants',
             'level_text': 'Selection contract (same unit -> identical value; first matching row; None iff no row) for every table of up to 4 rows over symbolic units; the temperature table is total over all ordered pairs; data flow amount*factor+offset on a bounded value set.',
             'level_note': 'bounded: tables with more than 4 rows and the bit-exact affine map for arbitrary amounts are not covered by the quick tier; trusted: Kani/CBMC.'},
-    'C16': {'engine': 'kani', 'design_ref': '5 C16', 'technique': 'Kani loop-free harnesses over all i8 exponents, every prefix row against the SI brochure table, iteration order, all 1- and 2-byte ASCII abbreviations',
-            'level_text': 'Exhaustive over the finite parts (256 exponents, 25 rows, 128 + 16384 ASCII strings); complete proofs, no unwinding bound involved except the 25-element iteration.',
-            'level_note': 'Trusted: spec/si_prefixes.toml transcribes the SI brochure; names are compared with the library\'s capitalised spelling; non-ASCII / longer abbreviation strings other than the table\'s own are not explored.'},
-    'C18': {'engine': 'verus+kani', 'design_ref': '5 C18', 'technique': 'Verus: every extracted function verifies without a precondition other than the same-unit guard (all panic sites unreachable); Kani: automatic panic checks on the compiled lookups, _fit, converter, like and derived operators over all f64 bit patterns',
-            'level_text': 'f64 configuration: unbounded proof for the arithmetic paths (Verus) and complete symbolic execution over all bit patterns for the iterator/unwrap paths (Kani). Decimal configuration and formatting are not covered (stated in the evidence).',
-            'level_note': 'Not covered: fmt paths (C15), the decimal range implication (fpdec panics on overflow / zero divisor are a dependency contract). Kani checks "NaN on <op>" are IEEE results, not panics, and are excluded.'},
+    'C16': {'engine': 'kani', 'design_ref': '5 C16', 'technique': 'Kani loop-free harnesses over all i8 exponents, every prefix row against the SI brochure table, iteration order, every valid UTF-8 abbreviation string of 0 to 3 bytes',
+            'level_text': 'Exhaustive over the finite parts (256 exponents, 25 rows, every valid UTF-8 string of up to 3 bytes); complete proofs, no unwinding bound involved except the 25-element iteration.',
+            'level_note': 'Trusted: spec/si_prefixes.toml transcribes the SI brochure; names are compared with the library\'s capitalised spelling; abbreviation strings longer than 3 bytes other than the table\'s own are not explored.'},
+    'C18': {'engine': 'verus+kani', 'design_ref': '5 C18', 'technique': 'Verus: every extracted function verifies without a precondition other than the same-unit guard (all panic sites unreachable; a failed assert!/panic!/unwrap is a failed precondition); Kani: automatic panic checks on the compiled lookups, _fit, converter, like, derived and rate operators over all f64 bit patterns; decimal configuration: the generic HasRefUnit methods verified with fpdec operator preconditions switched on, and lemmas deriving those preconditions from the property\'s range conditions under a stated fpdec contract',
+            'level_text': 'f64 configuration: unbounded proof for the arithmetic paths (Verus) and complete symbolic execution over all bit patterns for the iterator/unwrap paths (Kani). Decimal configuration: proof for the generic HasRefUnit methods (conversion, comparison, like arithmetic, _fit) under the assumed fpdec range contract; the generated derived operators, the rate operators and formatting are not covered for decimals (stated in the evidence).',
+            'level_note': 'Not covered: fmt paths (C15); decimal derived and rate operators. Assumed: A-fpdec-range (an fpdec operation with operands and exact result within 1e20, divisor non-zero, does not panic). Kani checks "NaN on <op>" are IEEE results, not panics, and are excluded.'},
 })
 NOT_APPLICABLE = {
     'C06': 'quantifies over programs the type checker must reject; a function contract cannot state that an impl does not exist (DESIGN 7)',
